@@ -346,3 +346,45 @@ Proof.
   intros Hw Hd Hp Hd6 Hc E Hni Hck Ht.
   eapply expired_key_reaccepted_timely; eauto. lia.
 Qed.
+
+(** * towards time-lock freedom: the steps the urgency assumption asks for are always possible
+
+    All of them are thread steps, which [tstep] never refuses when [step] takes them, and take
+    no time.  (a) whoever holds the mutex releases it within three of its own steps; (b) with
+    the mutex free, a cleaner that has its tick completes Lock / sweep / Unlock and waits for
+    the next tick, leaving nothing behind that expired before the tick. *)
+Lemma holder_releases w s t :
+  holds (thr s t) = true ->
+  exists n s', (n <= 3)%nat /\ replay w s (repeat (LThr t) n) = Some s' /\ owner s' = None
+               /\ clock s' = clock s.
+Proof.
+  intros H. destruct (thr s t) as [todo pc res|pc] eqn:Et; destruct pc as [|a b|a b dup|a b]; try discriminate.
+  - (* PLocked: lookup, (insert,) unlock *)
+    destruct (alookup b (tags s)) as [e|] eqn:El.
+    + exists 2%nat. eexists. split; [lia|]. simpl. rewrite Et. simpl. rewrite El. simpl.
+      rewrite upd_same. simpl. repeat split; reflexivity.
+    + exists 3%nat. eexists. split; [lia|]. simpl. rewrite Et. simpl. rewrite El. simpl.
+      rewrite upd_same. simpl. rewrite upd_same. simpl. repeat split; reflexivity.
+  - destruct dup.
+    + exists 1%nat. eexists. split; [lia|]. simpl. rewrite Et. simpl. repeat split; reflexivity.
+    + exists 2%nat. eexists. split; [lia|]. simpl. rewrite Et. simpl. rewrite upd_same. simpl.
+      repeat split; reflexivity.
+  - exists 1%nat. eexists. split; [lia|]. simpl. rewrite Et. simpl. repeat split; reflexivity.
+  - (* cleaner CLocked *)
+    exists 2%nat. eexists. split; [lia|]. simpl. rewrite Et. simpl. rewrite upd_same. simpl.
+    repeat split; reflexivity.
+  - exists 1%nat. eexists. split; [lia|]. simpl. rewrite Et. simpl. repeat split; reflexivity.
+Qed.
+
+Lemma cleaner_cycle_possible w s c T :
+  thr s c = TCleaner (CTicked T) -> owner s = None ->
+  exists s', replay w s [LThr c; LThr c; LThr c] = Some s'
+             /\ thr s' c = TCleaner CWait /\ owner s' = None /\ clock s' = clock s
+             /\ forall k e, alookup k (tags s') = Some e -> T <= e.
+Proof.
+  intros Ht Ho. eexists. simpl. rewrite Ht, Ho. simpl. rewrite upd_same. simpl. rewrite upd_same. simpl.
+  repeat split; try reflexivity.
+  - apply upd_same.
+  - intros k e H. apply alookup_In in H. apply filter_In in H. destruct H as [_ H].
+    unfold expired in H. simpl in H. now apply negb_true_iff, Z.ltb_ge in H.
+Qed.
